@@ -70,9 +70,24 @@ def param_args(params):
     flags = dict(sp='-sp', dp='-dp', su='-su', d='-d', ms='-ms', bs='-bs', p='-p', diff='-diff', ss='-ss', sj='-sj')
     out = []
     for k, v in params.items():
+        if k == 'qid_pad':
+            continue                     # (handled where the set is known: a long -qId list)
+        if k == 'D':
+            if v:
+                out += ['-D']            # diagnostics: plots are drawn next to the output file; the records must not depend on it
+            continue
         if DEFAULTS.get(k) != v:
             out += [flags[k], v]
     return out
+
+
+def long_id_list(params, queries):
+    """-qId with every molecule of the file and `qid_pad` ids that do not occur in it (legal: the filter selects the listed ids that exist): the
+    command line, echoed in the header of every file written, then runs to many kilobytes"""
+    n = params.get('qid_pad')
+    if not n:
+        return []
+    return ['-qId'] + [q[0] for q in queries] + [10 ** 7 + 7 * i for i in range(n)]
 
 
 def run_job(job):
@@ -89,6 +104,10 @@ def run_job(job):
         refs = [ref]
     elif job.get('generator') == 'dense':
         refs, queries, truths = pl.gen_dense_set(seed)
+    elif job.get('generator') == 'diag':
+        refs, queries, truths = pl.gen_diag_set(seed)
+    elif job.get('generator') == 'tandem':
+        refs, queries, truths = pl.gen_tandem_set(seed)
     else:
         refs, queries, truths = pl.gen_set(seed, kinds=job.get('kinds', pl.KINDS), weights=job.get('weights'), odd_refs=job.get('odd_refs', False))
     d = pl.make_workdir(refs, queries, two_colour=(random.Random(seed + 5) if seed % 7 == 3 else None))      # every seventh set is a two-colour CMAP
@@ -104,7 +123,7 @@ def run_job(job):
             cm.reset()
             try:
                 with time_limit(240):
-                    run = pl.run_program(d, mode, param_args(params), style=job.get('style', random.Random(seed * 31 + mi).randrange(4)))      # (decorrelated from the mode, which also cycles with the set number)
+                    run = pl.run_program(d, mode, param_args(params) + long_id_list(params, queries), style=job.get('style', random.Random(seed * 31 + mi).randrange(5)))      # (decorrelated from the mode, which also cycles with the set number)
             except CaseTimeout:
                 out['violations'].append(('src/program.py::Program.run::monitor::C07::terminates', None, dict(mode=mode), job, mode))
                 continue
@@ -117,6 +136,11 @@ def run_job(job):
                 if 'C07' in oracles or True:
                     v.append(('src/program.py::Program.run::monitor::C07::no_exception', None, dict(error=run.error[:600])))
             else:
+                if run.handover_losses:
+                    # the assumption every deductive argument about execute() rests on (p_imap yields f(x0), f(x1), ...) is broken by the results' own
+                    # pickling: reported under the property being checked, with the real worker pool this is what the parent works with
+                    v.append((f"src/workflow_coordinator.py::_WorkflowCoordinator.execute::monitor::{oracles[0]}::worker_results_reach_the_parent_unchanged", None,
+                              dict(types=sorted(set(run.handover_losses)), results=len(run.handover_losses))))
                 if 'C01' in oracles:
                     v += R.c01(run, pr, pq, events)
                 if 'C02' in oracles:
@@ -124,7 +148,7 @@ def run_job(job):
                 if 'C03' in oracles:
                     v += R.c03(run, events)
                 if 'C04' in oracles:
-                    v += R.c04(run, (params['sp'], params['dp'], params['su'], params['d']), events)
+                    v += R.c04(run, (params['sp'], params['dp'], params['su'], params['d']), events, pr, pq)
                 if 'C05' in oracles:
                     v += R.c05(run, mode, params['p'])
                 if 'C07' in oracles:
@@ -258,6 +282,9 @@ REGRESSION_JOBS = [
     # fixed f7d663a: a joined record without any pair (both records with an empty first segment)
     dict(**{'for': ('C01', 'C07', 'C18')}, job=dict(seed=1178, modes=['best', 'joined'], params={'d': 500, 'ms': 500}, kinds=pl.KINDS, weights=[1, 2, 1, 2, 2, 6],
                                                   odd_refs=True, style=0)),
+    # fixed d05bf62: -D (diagnostics) with a molecule longer than the reference aborted the run in the primary-correlation plot; the same job keeps the
+    # diagnostics option in every tier of the properties about the records: drawing the plots must not change or prevent them
+    dict(**{'for': ('C07', 'C01', 'C03')}, job=dict(seed=4242, modes=['best'], params={'D': True}, generator='diag', style=0)),
 ]
 
 
